@@ -125,6 +125,14 @@ func (p PtrVal) objs() []*Object {
 	return r
 }
 
+// FloatQ: the float64 (Q + R/3.6e12)/Div produced by time.Duration.Hours() and divisions by integer constants, kept
+// symbolically in int mode. It is an exact integer, computed exactly by IEEE arithmetic, when R == 0 and Div | Q
+// (|Q| < 2^53 always holds: Q is a number of hours in an int64 of nanoseconds).
+type FloatQ struct {
+	Q, R *Term
+	Div  int64
+}
+
 type TupleVal []Val
 
 // ErrVal is the abstraction of an error value.
